@@ -40,12 +40,12 @@ func genDecomp(t *rapid.T) DecompCase {
 	}
 	switch c.Mode {
 	case "split":
-		c.Chain = genChains(t, 3, maxLogN, 1, maxQ, 0, maxP, false)
+		c.Chain = genChains(t, 3, maxLogN, 1, maxQ, 0, maxP, true)
 	case "ntt":
-		c.Chain = genChains(t, 4, maxLogN, 1, maxQ, 1, maxP, false)
+		c.Chain = genChains(t, 4, maxLogN, 1, maxQ, 1, maxP, true)
 		c.IsNTT = rapid.Bool().Draw(t, "isNTT")
 	default:
-		c.Chain = genChains(t, 4, maxLogN, 1, maxQ, 0, 1, false)
+		c.Chain = genChains(t, 4, maxLogN, 1, maxQ, 0, 1, true)
 		// every BaseTwoDecomposition 1..30, biased to the divisors of the prime sizes (digit count boundary)
 		if rapid.Bool().Draw(t, "wdiv") {
 			q := c.Chain.Q[rapid.IntRange(0, len(c.Chain.Q)-1).Draw(t, "wq")]
@@ -82,13 +82,13 @@ var (
 )
 
 func (s ChainSpec) evaluator() (*evalEntry, error) {
-	key := fmt.Sprintf("%d|%v|%v", s.LogN, s.Q, s.P)
+	key := fmt.Sprintf("%d|%v|%v|%v", s.LogN, s.CI, s.Q, s.P)
 	evalMu.Lock()
 	defer evalMu.Unlock()
 	if e, ok := evalCache[key]; ok {
 		return e, nil
 	}
-	spec := h.RLWESpec{LogN: s.LogN, Q: s.Q, P: s.P, Xs: h.DefaultXs, Xe: h.DefaultXe, NTT: true}
+	spec := h.RLWESpec{LogN: s.LogN, CI: s.CI, Q: s.Q, P: s.P, Xs: h.DefaultXs, Xe: h.DefaultXe, NTT: true}
 	params, err := spec.Build()
 	if err != nil {
 		return nil, err
@@ -176,8 +176,9 @@ func runDecomp(c DecompCase, rec *h.Rec) error {
 				outP = rP.NewPoly()
 				dirty(outP, c.Chain.P, c.Dirt+uint64(i)+100)
 			}
-			// called exactly as rlwe.Evaluator does: nbPi = levelP+1 (0 when there is no P)
-			dec.DecomposeAndSplit(c.LevelQ, c.LevelP, c.LevelP+1, i, pIn, outQ, outP)
+			// called exactly as rlwe.Evaluator does: nbPi = max(levelP+1, 1) (one prime per digit when there is no P;
+			// before fix b02a278 the evaluator passed 0 there and every digit decomposed limb 0)
+			dec.DecomposeAndSplit(c.LevelQ, c.LevelP, nbPi, i, pIn, outQ, outP)
 			lq, _ := limbs(outQ, Q)
 			if g.hi-g.lo > 1 {
 				// limbs of the group itself are not written by DecomposeAndSplit (DecomposeSingleNTT copies the input there)
@@ -299,6 +300,7 @@ func runDecomp(c DecompCase, rec *h.Rec) error {
 		rec.Classf("levelP=%s", lvlClass(c.LevelP, nP-1))
 	}
 	rec.Classf("digits=%d", len(groups))
+	rec.Classf("ci=%v", c.Chain.CI)
 	rec.Classf("tail=%v", (c.LevelQ+1)%nbPi != 0)
 	rec.Classf("Q=%s", sizeClass(Q))
 	recKinds(rec, c.Coeffs)
@@ -307,7 +309,7 @@ func runDecomp(c DecompCase, rec *h.Rec) error {
 	}
 	_ = multi
 	if hasBoundary(c.Coeffs) && discr && (len(groups) > 1 || c.LevelQ < nQ-1 || (nP > 0 && c.LevelP < nP-1)) {
-		rec.NonTrivial(fmt.Sprintf("%s|N=%d|ntt=%v|lq=%d/%d|lp=%d/%d|Q=%s|P=%s|%s", name, N, c.IsNTT, c.LevelQ, nQ-1, c.LevelP, nP-1, sizeClass(Q), sizeClass(P), kindsOf(c.Coeffs)))
+		rec.NonTrivial(fmt.Sprintf("%s|N=%d|ci=%v|ntt=%v|lq=%d/%d|lp=%d/%d|Q=%s|P=%s|%s", name, N, c.Chain.CI, c.IsNTT, c.LevelQ, nQ-1, c.LevelP, nP-1, sizeClass(Q), sizeClass(P), kindsOf(c.Coeffs)))
 	}
 	return nil
 }
